@@ -269,7 +269,15 @@ Section Steps.
       | KLitEnum _ vals => if existsb (py_scalar_eqb j) vals then Some (PJ j) else None
       | KList inner =>
           if has_construct inner then
-            match j with JArr l => option_map PList (map_opt (d inner) l) | _ => None end
+            (* `for item_data in data`: no isinstance test guards the loop (only a union member's top level has one), so a str is
+               iterated character by character and a dict key by key (the harness sends objects with sorted keys); None / numbers /
+               booleans are not iterable *)
+            match j with
+            | JArr l => option_map PList (map_opt (d inner) l)
+            | JStr s => option_map PList (map_opt (d inner) (map (fun c => JStr [c]) s))
+            | JObj m => option_map PList (map_opt (d inner) (map (fun kv => JStr (fst kv)) m))
+            | _ => None
+            end
           else Some (PJ j)
       | KUnion ms => dec_union ms j
       | KModel c => dec_model c j
